@@ -541,10 +541,12 @@ p_uthread_sleep (puint32 msec)
 							   0,
 							   &time_req,
 							   &time_rem)) != 0)) {
+			/* clock_nanosleep() returns an error number and leaves errno untouched */
+			if (result == EINTR)
 #  else
 		if (P_UNLIKELY ((result = nanosleep (&time_req, &time_rem)) != 0)) {
-#  endif
 			if (p_error_get_last_system () == EINTR)
+#  endif
 				time_req = time_rem;
 			else
 				return -1;
